@@ -6,6 +6,7 @@ import (
 	"encoding/binary"
 	"encoding/hex"
 	"fmt"
+	"net"
 	"os"
 	"os/exec"
 	"path/filepath"
@@ -592,7 +593,7 @@ func TestRegr_C15_probes(t *testing.T) {
 // ---------------------------------------------------------------------------------------------
 // C15, back pressure: a peer that stops READING while it keeps sending messages the node answers.
 
-const ruleC15bp = "a real BitcoinNode over loopback TCP at a drawn stage (S0 / S2 / S3); the scripted peer (4 KiB receive buffer) stops reading, then sends a drawn number (20 000 / 300 000 / 450 000, in batches of 1000) of well-formed pings, each of which makes the node queue a pong: once the socket buffers are full (about 4 MiB of pongs on this kernel) the node's writer blocks, the 1000-slot outgoing queue fills and the ping handler waits for a slot (observed in a goroutine dump); then the peer closes the connection; oracle: Run returns within 10 s without an interrupt, and a well-behaved bystander session sharing the repositories still verifies and gets its pong; non-trivial = the handler was parked on the full queue when the peer closed; distinct = (stage, ping count, parked)"
+const ruleC15bp = "a real BitcoinNode over loopback TCP at a drawn stage (S0 / S2 / S3); the scripted peer (4 KiB receive buffer) stops reading, then sends a drawn number (20 000 / 300 000 / 450 000, in batches of 1000) of well-formed pings, each of which makes the node queue a pong: once the socket buffers are full (about 4 MiB of pongs on this kernel) the node's writer blocks, the 1000-slot outgoing queue fills and the ping handler waits for a slot (observed in a goroutine dump); then the peer closes the connection, or (when the handler is not parked) stays connected without reading and sends bytes that are not a message; oracle: Run returns within 10 s without an interrupt (the node ends the session itself in the second case), and a well-behaved bystander session sharing the repositories still verifies and gets its pong; non-trivial = the handler was parked on the full queue when the peer closed; distinct = (stage, ping count, parked)"
 
 func TestProp_C15_backpressure(t *testing.T) {
 	col := evid.For("C15", "backpressure", ruleC15bp)
@@ -600,6 +601,7 @@ func TestProp_C15_backpressure(t *testing.T) {
 		k := col.NewCase()
 		stage := rapid.SampledFrom([]int{0, 2, 3, 3}).Draw(t, "stage")
 		pings := rapid.SampledFrom([]int{20000, 300000, 300000, 450000}).Draw(t, "pings")
+		ending := rapid.SampledFrom([]string{"close", "close", "garbage"}).Draw(t, "ending")
 		hdrs, book := newStrictHeaders(), newPeers()
 		s := Start(t, Opts{Headers: hdrs, Peers: book, PeerRcvBuf: 4096})
 		switch stage {
@@ -633,9 +635,25 @@ func TestProp_C15_backpressure(t *testing.T) {
 		dump := make([]byte, 4<<20)
 		dump = dump[:runtime.Stack(dump, true)]
 		parked := strings.Contains(string(dump), "MessageChannel).Add")
-		s.Peer.Close()
+		if ending == "garbage" {
+			// the peer stays connected (and still does not read) but sends bytes that are not a
+			// message: the node has to end the session itself
+			if parked {
+				// the node's reader is waiting in the handler and will not see the bytes before a
+				// queue slot frees up, which needs the peer to read: out of this ending's scope
+				ending = "close"
+			} else {
+				s.Peer.SendRaw([]byte("\x01\x02\x03\x04garbagegarbagegarbage!!"))
+			}
+		}
+		if ending == "close" {
+			s.Peer.Close()
+		}
 		if !s.RunReturned(bound) {
-			t.Fatalf("Run did not return within %s after a peer that had stopped reading (stage S%d, %d pings, handler parked on the full outgoing queue: %v) closed the connection", bound, stage, pings, parked)
+			t.Fatalf("Run did not return within %s after a peer that had stopped reading (stage S%d, %d pings, handler parked on the full outgoing queue: %v) ended with: %s", bound, stage, pings, parked, ending)
+		}
+		if ending == "garbage" {
+			s.Peer.Close()
 		}
 		s.Finish(time.Second)
 		<-sendDone
@@ -646,11 +664,123 @@ func TestProp_C15_backpressure(t *testing.T) {
 			t.Fatalf("bystander session got no pong after the back-pressure case")
 		}
 		by.Finish(bound)
-		k.Op("S%d pings=%d parked=%v", stage, pings, parked)
+		k.Op("S%d pings=%d parked=%v ending=%s", stage, pings, parked, ending)
 		if parked {
 			k.Class("handler_parked_on_full_outgoing_queue")
 		}
-		k.NonTrivial = parked
+		k.NonTrivial = parked || ending == "garbage"
+		k.Done()
+	})
+}
+
+// ---------------------------------------------------------------------------------------------
+// C15, synchronous connection: over an in-memory pipe every write of the node blocks until the
+// peer reads it, so "the peer is not reading" needs no socket buffers to fill.
+
+const ruleC15pipe = "a real BitcoinNode run over an in-memory pipe (verif hook VerifRun; every write blocks until the peer reads); the scripted peer plays the session up to a drawn stage (nothing read at all / version exchanged / handshake complete / verified), then STOPS READING, optionally sends 0..40 well-formed pings (each queues a pong that cannot be written), and ends with a drawn event: close the connection, send bytes that are not a message and stay connected, or nothing at all while the caller fires the interrupt (shutdown); oracle: Run returns within 10 s in every case; non-trivial = handshake complete or later, with the node's writer blocked; distinct = (stage, pings, ending)"
+
+func TestProp_C15_pipe(t *testing.T) {
+	col := evid.For("C15", "pipe", ruleC15pipe)
+	rapid.Check(t, func(t *rapid.T) {
+		k := col.NewCase()
+		ctx := vt.Ctx()
+		stage := rapid.SampledFrom([]int{0, 1, 2, 2, 3, 3}).Draw(t, "stage")
+		pings := rapid.SampledFrom([]int{0, 0, 1, 5, 40}).Draw(t, "pings")
+		ending := rapid.SampledFrom([]string{"close", "garbage", "interrupt"}).Draw(t, "ending")
+		hdrs, book := newStrictHeaders(), newPeers()
+		node := bitcoin_reader.NewBitcoinNode("pipe:0", "/verif:1/", nodeConfig(), hdrs, book)
+		nodeConn, peerConn := net.Pipe()
+		interrupt := make(chan interface{})
+		runDone := make(chan error, 1)
+		go func() { runDone <- node.VerifRun(ctx, nodeConn, interrupt) }()
+
+		fail := func(format string, a ...interface{}) {
+			peerConn.Close()
+			close(interrupt)
+			t.Fatalf(format, a...)
+		}
+		peerConn.SetDeadline(time.Now().Add(20 * time.Second))
+		readUntil := func(cmd string) bool {
+			for i := 0; i < 50; i++ {
+				f, err := p2p.ReadFrame(peerConn)
+				if err != nil {
+					return false
+				}
+				if f.Command == cmd {
+					return true
+				}
+			}
+			return false
+		}
+		write := func(fs ...p2p.Frame) bool {
+			for _, f := range fs {
+				if _, err := peerConn.Write(p2p.Encode(f)); err != nil {
+					return false
+				}
+			}
+			return true
+		}
+		if stage >= 1 {
+			if !readUntil("version") || !write(p2p.Version(0)) {
+				fail("%s: setup: version exchange over the pipe failed", p2p.SetupFailure)
+			}
+		}
+		if stage >= 2 {
+			if !write(p2p.Verack()) || !readUntil("getheaders") {
+				fail("%s: setup: handshake over the pipe failed", p2p.SetupFailure)
+			}
+		}
+		if stage >= 3 {
+			if !write(p2p.Headers([]model.RawHeader{bsvHeader()})) || !readUntil("sendheaders") {
+				fail("%s: setup: verification over the pipe failed", p2p.SetupFailure)
+			}
+		}
+		// from here on the peer reads nothing: whatever the node writes next blocks its writer
+		sent := 0
+		for i := 0; i < pings; i++ {
+			peerConn.SetWriteDeadline(time.Now().Add(2 * time.Second))
+			if _, err := peerConn.Write(p2p.Encode(p2p.Ping(uint64(i)))); err != nil {
+				break
+			}
+			sent++
+		}
+		time.Sleep(2 * time.Millisecond)
+		switch ending {
+		case "close":
+			peerConn.Close()
+		case "garbage":
+			peerConn.SetWriteDeadline(time.Now().Add(2 * time.Second))
+			peerConn.Write([]byte("\x01\x02\x03\x04garbagegarbagegarbage!!"))
+		case "interrupt":
+			close(interrupt)
+		}
+		select {
+		case <-runDone:
+		case <-time.After(bound):
+			b := make([]byte, 1<<20)
+			b = b[:runtime.Stack(b, true)]
+			var where []string
+			for _, g := range strings.Split(string(b), "\n\n") {
+				if strings.Contains(g, "bitcoin_reader.(*BitcoinNode)") {
+					lines := strings.Split(g, "\n")
+					if len(lines) > 4 {
+						lines = lines[:4]
+					}
+					where = append(where, strings.Join(lines, " | "))
+				}
+			}
+			peerConn.Close()
+			if ending != "interrupt" {
+				close(interrupt)
+			}
+			t.Fatalf("Run did not return within %s: the peer stopped reading at stage %d, sent %d pings and ended with %q; node goroutines: %v", bound, stage, sent, ending, where)
+		}
+		peerConn.Close()
+		if ending != "interrupt" {
+			close(interrupt)
+		}
+		k.Op("stage=%d pings=%d ending=%s", stage, sent, ending)
+		k.NonTrivial = stage >= 2
 		k.Done()
 	})
 }
